@@ -39,7 +39,7 @@ theorem step_wsound (s : St) (p : Parked) (kn : Nat → Bool) (op : Op) (hop : o
   · exact h.adv (step_adv s p kn op hm h.zero)
   · -- a deletion or restoration of files
     have h0 : WSound { s with sto := [], mayStart := [], closedDl := [], mayStartI := false } :=
-      ⟨h.cfg, h.bad, h.ws⟩
+      ⟨h.cfg, h.bad, h.ws, h.pad⟩
     cases op with
     | mutate f how =>
       have hhow : ∀ off, how ≠ .corrupt off := by
@@ -66,6 +66,7 @@ theorem WSound.bits_of_files {s : St} (h : WSound s) (hfe : FilesExist s) :
     ∀ i, bitOf s.bf i = true → s.diskOKi i = true := by
   intro i hi
   rw [diskOKi_eq_true]
+  refine ⟨?_, h.pad i hi⟩
   intro x hx hxi
   have hmiss := h.ws i hi x hx hxi
   obtain ⟨sc, hsc, hfile, hdata⟩ := h.bad x hx
@@ -111,7 +112,7 @@ theorem InitLike.sound {s : St} (h : InitLike s) : Sound s :=
   ⟨h.cfg, h.bad, fun i hi => (by rw [h.bf] at hi; cases hi), fun i hi => (by rw [h.persisted] at hi; cases hi)⟩
 
 theorem InitLike.wsound {s : St} (h : InitLike s) : WSound s :=
-  ⟨h.cfg, h.bad, fun i hi => (by rw [h.bf] at hi; cases hi)⟩
+  ⟨h.cfg, h.bad, fun i hi => (by rw [h.bf] at hi; cases hi), fun i hi => (by rw [h.bf] at hi; cases hi)⟩
 
 theorem InitLike.life {s : St} (h : InitLike s) : Life s := by
   refine ⟨?_, ?_, h.leaked, ?_, ?_, ?_, ?_⟩
